@@ -22,6 +22,7 @@ type Analysis struct {
 	// escapes: module functions referenced as values (method values, function arguments): they have callers the
 	// syntactic call count does not see
 	escapes map[*FuncInfo]bool
+	nescapes map[*FuncInfo]int // number of mentions outside call position
 	// oneIter: loops are walked once for one arbitrary element (rule DEF-COUNTS only)
 	oneIter  bool
 	oneIterN int
@@ -65,6 +66,16 @@ type Analysis struct {
 }
 
 // inlinable: a private, non-recursive helper with exactly one call site and a moderate body.
+// inlinableValue: a private function that is never called by name and is mentioned as a value exactly once (an entry of
+// a dispatch table, a callback handed to one helper): the call through that value is its one call site.
+func (a *Analysis) inlinableValue(fn *FuncInfo) bool {
+	a.computePurity()
+	if a.ncalls[fn] != 0 || a.nescapes[fn] != 1 || ast.IsExported(fn.Decl.Name.Name) {
+		return false
+	}
+	return stmtCount(fn.Decl.Body) <= 80
+}
+
 func (a *Analysis) inlinable(fn *FuncInfo) bool {
 	a.computePurity()
 	if a.ncalls[fn] != 1 || ast.IsExported(fn.Decl.Name.Name) || a.escapes[fn] {
@@ -278,6 +289,10 @@ func (a *Analysis) computePurity() {
 				if f, ok := info.Uses[id].(*types.Func); ok {
 					if fi := a.Prog.Funcs[f.Origin()]; fi != nil {
 						a.escapes[fi] = true
+						if a.nescapes == nil {
+							a.nescapes = map[*FuncInfo]int{}
+						}
+						a.nescapes[fi]++
 					}
 				}
 			}
